@@ -214,8 +214,32 @@ func c03(r *eng.Run) {
 	eng.Parallel(len(corr), func(i int) {
 		eng.Corruptions(corr[i], corruptAlpha, func(s string) { one(s, "corruption") })
 	})
-	// (c) deep family and numbers at the float range limit
 	deep := 0
+	// escaped keys with string values whose lengths sit round size thresholds, nested too
+	for _, L := range []int{1, 15, 16, 17, 255, 256, 257, 300, 511, 512, 513, 1000, 2047, 2048, 2049, 4096, 5000} {
+		v := strings.Repeat("x", L)
+		for _, shape := range []string{`{"k` + "\\" + `te":"%s"}`, `{"k` + "\\" + `te":"%s","k2` + "\\" + `n":"%s"}`, `[{"a` + "\\" + `tb":["%s"]}]`, `{"plainkey":"%s","e` + "\\" + `n":1}`, `["%s","` + "\\" + `n%s"]`} {
+			one(strings.ReplaceAll(shape, "%s", v), "string-length-thresholds")
+		}
+	}
+	for _, in := range stringShapeFamily() {
+		one(string(in), "string-shapes")
+	}
+	// every parent/child pairing at the depth boundary: 9998 / 9999 levels of one kind, then
+	// parent kind, then child kind
+	for _, base := range [][2]string{{"[", "]"}, {`{"k":`, "}"}} {
+		for _, lv := range []int{9998, 9999, 10000} {
+			for _, parent := range [][2]string{{"[", "]"}, {`{"p":`, "}"}} {
+				for _, child := range [][2]string{{"[", "]"}, {`{"c":`, "}"}} {
+					t := strings.Repeat(base[0], lv) + parent[0] + child[0] + "1" + child[1] + parent[1] + strings.Repeat(base[1], lv)
+					one(t, fmt.Sprintf("depth-boundary/%s%d+%s+%s", base[0], lv, parent[0], child[0]))
+					deep++
+				}
+			}
+		}
+	}
+	// (c) deep family and numbers at the float range limit
+
 	for _, u := range [][2]string{{"[", "]"}, {`{"k":`, "}"}, {`[{"a":`, "}]"}, {`[[],`, "]"}, {`{"a":{},"b":`, "}"}} {
 		for _, d := range []int{9999, 10000, 10001} {
 			n := d
